@@ -28,6 +28,8 @@ def periodic_small(case, params):
     o = _obj(case)
     if o is None:
         return False
+    if params.get('ops') and case.get('op') not in params['ops']:
+        return False        # the finding is about these operations only (evaluation of such objects is correct)
     for d in _touched_dirs(case):
         b = o['bases'][d]
         if b['periodic'] >= 0 and _nfun(b) < b['order'] + b['periodic']:
